@@ -534,6 +534,28 @@ func scChainRespell(tw *hx.TraceWriter, rep *hx.Report) {
 	rep.Behaviours++
 }
 
+// slashWhileWaiting: a node asks to unstake (it waits for the end of the session, unjailed), and is
+// slashed below the minimum stake by double-sign evidence while it waits - at every phase of the session,
+// so that in some runs the slash lands while it waits and in others after it has begun unstaking.  It must
+// be jailed at once and leave the consensus set.
+func scSlashWhileWaiting(tw *hx.TraceWriter, rep *hx.Report) {
+	for phase := int64(0); phase < 4; phase++ {
+		c := traceCfg(hx.Seed()*1000+610+phase, 0)
+		w := startScenario(tw, c, "slash-while-waiting")
+		w.block(plain(), w.stakeTx("a3", "a4", 2500000, []string{"0001"}, urls[1], nil, "a3"))
+		for i := int64(0); i < phase; i++ {
+			w.block(plain())
+		}
+		w.block(plain(), w.unstakeTx("a3", "a3", "a3"))
+		// 50% double-sign slash: 2.5 -> 1.25 POKT, below the 2 POKT minimum
+		w.block(blockOpts{Dt: 1, Proposer: "a2", Evidence: []evidenceSpec{{Node: "a3", Height: w.s.Height, Time: w.t, Power: 2}}})
+		for i := 0; i < 8; i++ {
+			w.block(blockOpts{Dt: 1, Proposer: "a2"})
+		}
+		rep.Behaviours++
+	}
+}
+
 // jailed reports whether `n` is jailed in the projected state
 func jailed(n string) func(chainsim.State) bool {
 	return func(st chainsim.State) bool { v, ok := st.Val[n]; return ok && v.Jailed }
@@ -677,7 +699,7 @@ func scWallClock(tw *hx.TraceWriter, rep *hx.Report) {
 }
 
 var scenarios = []scenario{
-	{"edit-matrix", scEditMatrix}, {"delegator-edits", scDelegatorEdits}, {"unstake-session", scUnstakeSession}, {"restake-while-unstaking", scRestakeWhileUnstaking}, {"chain-respell", scChainRespell}, {"jail-unjail", scJailUnjail},
+	{"edit-matrix", scEditMatrix}, {"delegator-edits", scDelegatorEdits}, {"unstake-session", scUnstakeSession}, {"restake-while-unstaking", scRestakeWhileUnstaking}, {"chain-respell", scChainRespell}, {"slash-while-waiting", scSlashWhileWaiting}, {"jail-unjail", scJailUnjail},
 	{"force-unstake", scForceUnstake}, {"params", scParams}, {"donation", scDonation},
 	{"edit-bypass", scEditBypass}, {"wall-clock", scWallClock},
 }
